@@ -1318,6 +1318,26 @@ static void h_c_set(const char *cmd, cfg_t *cfg)
 	h_std(cmd, "rc=%d", rc);
 }
 
+/* setstr_self C PATH OFF IDX: cfg_setnstr(cfg, PATH, cfg_getnstr(cfg, PATH, IDX) + OFF, IDX) — the new value points
+ * INTO the value being replaced (dropping a prefix, writing an element back to its own slot) */
+static void h_c_setself(const char *cmd, cfg_t *cfg)
+{
+	char *path = h_str(2);
+	unsigned int off = h_uint(3), idx = h_uint(4);
+	char *cur = NULL;
+	int rc = -2;
+
+	if (h_bad)
+		return;
+	H_LIB(cur = cfg_getnstr(cfg, path, idx));
+	if (cur && off <= strlen(cur)) {
+		h_setter = 's';
+		H_LIB(rc = cfg_setnstr(cfg, path, cur + off, idx));
+		h_setter = 0;
+	}
+	h_std(cmd, "rc=%d", rc);
+}
+
 /* the varargs calls cfg_setlist/cfg_addlist for n = 0..8 values held in array a */
 #define H_VACALL(fn, cfg, path, n, a) \
 	((n) == 0 ? fn(cfg, path, 0) : (n) == 1 ? fn(cfg, path, 1, a[0]) : \
@@ -1626,7 +1646,7 @@ static const struct h_cmd {
 	{ "dump", h_c_dump, 1, 2, 2 }, { "getopt", h_c_get, 1, 3, 3 }, { "getsec", h_c_get, 1, 3, 3 },
 	{ "size", h_c_get, 1, 3, 3 }, { "title", h_c_get, 1, 3, 3 },
 	{ "setint", h_c_set, 1, 5, 5 }, { "setfloat", h_c_set, 1, 5, 5 }, { "setbool", h_c_set, 1, 5, 5 },
-	{ "setstr", h_c_set, 1, 5, 5 }, { "setlist", h_c_list, 1, 4, 12 }, { "addlist", h_c_list, 1, 4, 12 },
+	{ "setstr", h_c_set, 1, 5, 5 }, { "setstr_self", h_c_setself, 1, 5, 5 }, { "setlist", h_c_list, 1, 4, 12 }, { "addlist", h_c_list, 1, 4, 12 },
 	{ "setmulti", h_c_edit, 1, 3, 11 }, { "setopt", h_c_edit, 1, 4, 4 }, { "setcomment", h_c_edit, 1, 4, 4 },
 	{ "addtsec", h_c_edit, 1, 4, 4 }, { "rmsec", h_c_edit, 1, 3, 3 }, { "rmnsec", h_c_edit, 1, 4, 4 },
 	{ "rmtsec", h_c_edit, 1, 4, 4 },
